@@ -48,7 +48,7 @@ struct BmpStream : Family {
 		int bits = BITS[r.below(3)];
 		uint64_t w = r.chance(1, 10) ? 0 : r.below(thorough ? 200 : 70);
 		int64_t h = static_cast<int64_t>(r.below(thorough ? 40 : 14));
-		if (r.chance(1, thorough ? 60 : 150)) {
+		if (r.chance(1, thorough ? 400 : 150)) {
 			// pixel data larger than the buffers a streaming implementation may use (64 KiB .. 1 MiB): row counts on, next to and
 			// between the multiples of rows-per-block, with pitches that do and do not divide the block
 			static const uint64_t BW[][2] = {{1001, 8}, {363, 8}, {2001, 4}, {9001, 1}, {1025, 8}, {641, 8}, {1024, 8}, {1000, 8}, {10, 8}, {4096, 8}, {512, 4}, {33, 1}};
@@ -59,7 +59,7 @@ struct BmpStream : Family {
 			uint64_t rowsPerBlock = BLK[r.below(6)] / pitch, j = r.range(1, 3);
 			uint64_t rows = rowsPerBlock * j;
 			switch (r.below(5)) { case 0: rows += 1; break; case 1: if (rows > 1) rows -= 1; break; case 2: rows += 3 + r.below(40); break; default: break; }
-			while (rows * pitch > (3u << 20) || rows > 130000) rows -= rowsPerBlock ? rowsPerBlock : 1;
+			while (rows * pitch > (3u << 20) || rows > 130000) { if (rowsPerBlock && rows > rowsPerBlock) rows -= rowsPerBlock; else rows /= 2; }
 			h = static_cast<int64_t>(rows);
 			coarsenFaultsForBigWorld(p);
 		}
@@ -213,7 +213,7 @@ struct TilesetStream : Family {
 		p.setenv("wbackend", r.chance(1, 2) ? "dyn" : r.chance(1, 2) ? "file" : "sim");
 		Line t = mkline("world", "tileset");
 		uint64_t tiles = r.chance(1, 8) ? 0 : r.below(thorough ? 9 : 5);
-		if (r.chance(1, thorough ? 100 : 200)) {
+		if (r.chance(1, thorough ? 600 : 200)) {
 			// giant pictures: pixel sections on and next to multiples of 128 KiB .. 1 MiB (4096 .. 32768 rows of 32 bytes)
 			static const uint64_t BLKROWS[] = {4096, 8192, 32768, 32768};
 			tiles = BLKROWS[r.below(4)] / 32 * r.range(1, 2);
